@@ -298,10 +298,14 @@ def local_gp_fitting(
             cov_mu = 0.5 * (uu + ll)
             cov_sigma = 0.5 * (uu - ll)
 
-            gp_priors["covariance_log_lengthscale"] = (
-                "gaussian",
-                (cov_mu, cov_sigma),
-            )
+            # All pairwise distances equal (e.g. two training points) would
+            # give a zero-width prior and NaN hyperparameters: keep the
+            # previous prior in that case
+            if cov_sigma > 0:
+                gp_priors["covariance_log_lengthscale"] = (
+                    "gaussian",
+                    (cov_mu, cov_sigma),
+                )
 
     # TODO Adjust prior length scales for periodic variables (mapped to unit circle)
 
